@@ -102,6 +102,8 @@ def cy_error_class(msg):
         return "index-out-of-bounds"
     if "no starred arg found when splitting starred assignment" in msg or "Compiler crash in PostParse" in msg:
         return "crash-starred-assignment"
+    if "Attempting to index non-array type" in msg:
+        return "index-non-array"
     if re.search(r"local variable '\w+' referenced before assignment", msg):
         return "referenced-before-assignment"
     return "other"
